@@ -366,7 +366,7 @@ def step (ds : DS) (op implFull : String) : DS × StepOut :=
       let m' := Rpc.step ds.m (.mcall as t)
       let pad := (base + as.length) - m'.calls.length
       let m'' := { m' with calls := m'.calls ++ (List.range pad).map (fun i =>
-        ⟨0, none, .dropped, some .abandoned, some (m'.groups - 1), none, m'.calls.length + i⟩) }
+        ⟨0, none, .dropped, some .abandoned, some (m'.groups - 1), none, m'.calls.length + i, 0⟩) }
       finish m'' "ok" o' true
     | _, _ => (ds, { model := "bad-op" })
   | ["handle", a, act] =>
